@@ -44,7 +44,7 @@ PROPS = {
     "C03": dict(
         title="Exactly min(T, confirmed) distinct winners",
         lean=["LP.Props.C03base", "LP.Props.C03final", "LP.Props.C01reach", "LP.Props.C01reachV2", "LP.Props.C01reachV1", "LP.Props.C01reachG1", "LP.Props.C14reach", "LP.Props.C14reachG", "LP.Props.AllVariants2", "LP.Props.C03proceeds", "LP.Props.C01zero"],
-        profiles=[("life", ALL_VARIANTS), ("fy", ["base", "guarV2"]), ("chunks", GUAR), ("topup", GUAR)],
+        profiles=[("life", ALL_VARIANTS), ("fy", ["base", "guarV2"]), ("chunks", GUAR), ("topup", GUAR), ("reserve", GUAR)],
         R={"ret": {"select", "distribute"}},
         D={"nrw": SELECT_EPS | {"claim"}, "status": SELECT_EPS, "cpay": SELECT_EPS, "last": SELECT_EPS, "addr.win": SELECT_EPS,
            "views.C03": ANY},
@@ -104,7 +104,7 @@ PROPS = {
     "C11": dict(
         title="Guarantees honoured with the holder's own tickets",
         lean=["LP.Props.C11topup", "LP.Props.C01reachV2", "LP.Props.C01reachV1", "LP.Props.C01reachG1", "LP.Props.C14reachG", "LP.Props.AllVariants2"],
-        profiles=[("topup", GUAR), ("life", GUAR), ("chunks", GUAR)],
+        profiles=[("topup", GUAR), ("life", GUAR), ("chunks", GUAR), ("reserve", GUAR)],
         R={"ret": {"distribute"}},
         D={"status": {"distribute", "secondary"}, "addr.win": {"distribute", "secondary"}, "nrw": {"distribute", "secondary"}},
     ),
